@@ -482,6 +482,25 @@ def validate_parse(ctx):
     _cmp(ctx, "pgen.parse", reqs, wants)
 
 
+def validate_recombine(ctx):
+    from dateutil.parser import _parser as P
+    rng = ctx.subrng("pgen.recombine")
+    p = P.parser()
+    reqs, wants = [], []
+    for _ in range(ctx.budget(1500, 8000)):
+        toks = [rng.choice(["a", "b", " ", "12", ",", "foo", ""]) for _ in range(rng.randrange(0, 8))]
+        k = rng.random()
+        if k < 0.7:      # what _parse hands over: increasing indices
+            idxs = sorted(rng.sample(range(len(toks)), rng.randrange(0, len(toks) + 1))) if toks else []
+        elif k < 0.9:    # any order, repeats
+            idxs = [rng.randrange(0, max(1, len(toks))) for _ in range(rng.randrange(0, 6))] if toks else []
+        else:            # out of range
+            idxs = [rng.randrange(0, len(toks) + 3) for _ in range(rng.randrange(1, 5))]
+        reqs.append("pgen.recombine %s %s" % (";".join(L.cps(t) for t in toks) if toks else "E", ",".join(map(str, idxs)) or "N"))
+        wants.append(_r(lambda: p._recombine_skipped(list(toks), list(idxs)), lambda r: "[" + ",".join(L.cps(t) for t in r) + "]"))
+    _cmp(ctx, "pgen.recombine", reqs, wants)
+
+
 class _TailCtx:
     """the model_answers machinery of _parser_lib with `parser.parse` requests sent to the TRANSLATED tail of parse()"""
 
@@ -605,3 +624,4 @@ def validate(ctx):
     validate_loop(ctx)
     validate_parse(ctx)
     validate_parsetail(ctx)
+    validate_recombine(ctx)
